@@ -26,8 +26,15 @@ func (req *Request) Construct() (method string, ustr string, err error) {
 	if err != nil {
 		return "", "", fmt.Errorf("invalid OCI request: %v", err)
 	}
-	if _, err := Parse(method, u); err != nil {
+	preq, err := Parse(method, u)
+	if err != nil {
 		return "", "", fmt.Errorf("invalid OCI request: %v", err)
+	}
+	// The URL must mean what the request says: a repository name (or tag
+	// or digest) containing URL metacharacters could otherwise turn into
+	// a request for some other repository or of some other kind.
+	if preq.Kind != req.Kind || preq.Repo != req.Repo || preq.FromRepo != req.FromRepo || preq.tagOrDigest() != req.tagOrDigest() {
+		return "", "", fmt.Errorf("invalid OCI request: %v for repository %q cannot be represented as a URL", req.Kind, req.Repo)
 	}
 	return method, ustr, nil
 }
